@@ -770,6 +770,8 @@ fn execute(args: &Opts, input: String, filename: Option<PathBuf>) -> Result<Vec<
 
 	#[cfg(vicut_verif)]
 	verif::unit_probe(&input, &filename);
+	// Registers live in a thread local; worker threads are reused for many inputs
+	register::reset_registers();
 	let mut vicut = ViCut::new(input, 0)?;
 	let basename = filename.clone()
 		.map(|s| s.file_name().unwrap_or_default().to_string_lossy().to_string())
